@@ -26,6 +26,24 @@ CLAIMS = {
                 'quantifier by per-transition invariants; does not decide timer arithmetic or multi-peer schedules.',
         'note': 'Not decided: now > when_sent + MESSAGE_TIMEOUT arithmetic; interleavings of several peers.',
     },
+    'C12': {
+        'technique': 'static analysis: guard-flow typestate with operator/operand identity, def-use provenance, writer/reader layout agreement over compiler MIR',
+        'text': 'Decides for all paths that every non-genesis write of the stored tip is behind a strict U256 comparison '
+                'candidate.total_difficulty() > stored (operator, operand order and provenance checked), that the stored triple '
+                'derives from the same candidate prove state, that the byte layout written equals the layout read back after a restart, '
+                'and that the child fast path requires header verification, parenthood, strictly greater difficulty and a chain-root '
+                'comparison with the proven parent. Necessary conditions; ancestry of the last-N window is a value clause.',
+        'note': 'Not decided: that last-N headers are ancestors; real restart behaviour (only layout agreement is decided).',
+    },
+    'C18': {
+        'technique': 'static analysis: guard-flow typestate, tail-call/return provenance, who-may-call and def-use over compiler MIR',
+        'text': 'Decides for all paths that the pending pool is fed only by send_transaction after verify_tx returned Ok; that verify_tx '
+                'and its parts can succeed only after each verifier accepted, every resolved cell was Live and no input repeated; that '
+                'the pool insert is always followed by the size test with eviction; that a hash is announced to a peer only on the '
+                'first insert into its announced set and all RelayTransactionHashes come from that function; that pending status comes '
+                'from a pool hit after a store miss. Script/capacity/since semantics are trusted (ckb-verification).',
+        'note': 'Not decided: verifier semantics; that re-submission resets the announced-peer set; cycles arithmetic.',
+    },
 }
 
 _PENDING = 'check not built yet in this round (planned in DESIGN.md §5); not claimed until its rules run on the tree'
